@@ -978,6 +978,71 @@ fn gen_bbd_geo(out: &mut Out, run: &mut i64) {
     }
 }
 
+/// "outlier" families: small lattice rows plus one isolated row (or two copies of it) whose
+/// column 0 is 2^g -- 2^27..2^40 times the spread of the rest in double precision, 2^13..2^20 in
+/// single precision -- stored first, last, or duplicated (first and last).  Column 0 of every
+/// other row is 0, so the column is recorded in units of 2^g (an exact power-of-two scaling):
+/// X[i][0] is 0 or 1 and the centroids' column 0 is scaled by 2^-g before it is quantised.
+/// Labels, sizes, finiteness and means stay exactly decidable; the predict clause is not decided
+/// for this family (the per-column scaling does not preserve distances).
+fn gen_fit_outlier(out: &mut Out, run: &mut i64) {
+    let th = thorough();
+    let mut r = rng(1209);
+    let reps = if th { 40 } else { 10 };
+    for layout in 0..3usize {
+        for &prec in [64u32, 32].iter() {
+            for k in 3..=5usize {
+                let g: i32 = if prec == 64 { r.gen_range(27..=40) } else { r.gen_range(13..=20) };
+                let d = r.gen_range(2..=3usize);
+                let nrest = r.gen_range(8..=30usize);
+                let mut rest: Rows = Vec::new();
+                while distinct_rows(&rest) < k + 1 || rest.len() < nrest {
+                    let mut row = vec![0.0];
+                    for _ in 1..d {
+                        row.push(r.gen_range(0..=8) as f64);
+                    }
+                    rest.push(row);
+                    if rest.len() > 200 {
+                        break;
+                    }
+                }
+                let mut far = vec![1.0]; // in units of 2^g
+                for _ in 1..d {
+                    far.push(r.gen_range(0..=8) as f64);
+                }
+                let mut xs: Rows = Vec::new(); // scaled rows (column 0 in units of 2^g)
+                match layout {
+                    0 => { xs.push(far.clone()); xs.extend(rest.iter().cloned()); }
+                    1 => { xs.extend(rest.iter().cloned()); xs.push(far.clone()); }
+                    _ => { xs.push(far.clone()); xs.extend(rest.iter().cloned()); xs.push(far.clone()); }
+                }
+                let scale = 2f64.powi(g);
+                let xt: Rows = xs.iter().map(|row| row.iter().enumerate().map(|(j, &v)| if j == 0 { v * scale } else { v }).collect()).collect();
+                let cls = ["outlier-first", "outlier-last", "outlier-dup"][layout];
+                for rep in 0..reps {
+                    let mi = [100usize, 1, 3][rep % 3];
+                    *run += 1;
+                    let mut o = run_fit(prec, &xt, &xt, k, mi);
+                    // back to units of 2^g in column 0 (exact)
+                    for c in o.centroids.iter_mut() {
+                        if let Some(v) = c.first_mut() {
+                            *v /= scale;
+                        }
+                    }
+                    for qrow in o.q_used.iter_mut() {
+                        if let Some(v) = qrow.first_mut() {
+                            *v /= scale;
+                        }
+                    }
+                    let mut e = fit_event(*run, cls, prec, true, &xs, &xs, k, mi, &o);
+                    e["farexp"] = json!(g);
+                    out.emit(e);
+                }
+            }
+        }
+    }
+}
+
 /// offset families for fit / predict: small lattice rows + a large common offset per column
 fn gen_fit_offset(out: &mut Out, run: &mut i64) {
     let th = thorough();
@@ -1313,7 +1378,7 @@ fn rerun(inp: &str, out: &mut Out, run: &mut i64) {
             let cs: Vec<RC> = cn.into_iter().zip(cd).map(|(cn, cd)| RC { cn, cd }).collect();
             let off: Vec<i64> = v["off"].as_array().map(|a| a.iter().map(|b| b.as_i64().unwrap_or(0)).collect()).unwrap_or_default();
             out.emit(bbd_event_off(*run, v["cls"].as_str().unwrap_or("rerun"), &x, &cs, None, &off));
-        } else if v["ev"] == "KMFit" && v["xs"].as_i64() == Some(1 << S_FIT) && v["cls"] != "geo" {
+        } else if v["ev"] == "KMFit" && v["xs"].as_i64() == Some(1 << S_FIT) && v["cls"] != "geo" && v["farexp"].is_null() {
             let x: Rows = ints(&v["X"]).iter().map(|r| r.iter().map(|&a| a as f64).collect()).collect();
             let q: Rows = if v["Q"].is_array() {
                 ints(&v["Q"]).iter().map(|r| r.iter().map(|&a| a as f64).collect()).collect()
@@ -1353,6 +1418,7 @@ fn main() {
             gen_fit(&mut out, &mut run);
             gen_fit_offset(&mut out, &mut run);
             gen_predict_ladder(&mut out, &mut run);
+            gen_fit_outlier(&mut out, &mut run);
             gen_fit_geo(&mut out, &mut run);
             gen_ulp(&mut out, &mut run);
             let n = out.finish();
